@@ -2,26 +2,40 @@ import RawPanelVerif.Spec.TopologySpec
 /-!
 # C15 — the composite panel SVG contains exactly the visible components, correctly placed
 
-Executable predicate on the *observed* list of elements appended to the SVG root (from the implementation or the
-model); independent of `Model/`.
+Executable predicate on the *observed* list of elements appended to the SVG root together with the text printed for
+each of them (from the implementation or the model); independent of `Model/`.
 
-Clauses
-* `bad-base-not-empty`  an unparsable base SVG must give the empty result (`none`)
-* `nil-for-valid-base`  a parsable base must give a document
-* `base-content` / `wellformed`  (implementation side only: the harness compares the base's own children before/after
-  and re-parses the printed document with `encoding/xml`)
+The base document enters as an independent judgement made with `encoding/xml`: the kinds of its tokens (one letter per
+token, `S` = start element) and whether the tokenizer reached the end of input without an error.  A base is *valid*
+(`baseOk`) when it tokenizes to the end and contains an element.
+
+Clauses of `checkSVG`
+* `bad-base-not-empty`  an unparsable base SVG (does not tokenize, or no element) must give the empty result (`none`)
+* `nil-for-valid-base`  a valid base must give a document
+* `base-content`, `wellformed`, `printed-tail`  **observations of the implementation** (`Observed`, reported by the
+  harness): the base's own children and root attributes are unchanged in the tree (`kept`); the `encoding/xml` token
+  stream of the base is, in order, part of the token stream of the printed document, compact and pretty (`kept2`);
+  the printed documents re-parse, have one root and no duplicate attribute names (`wellformed`); the printed
+  documents end with the printed appended elements followed by the root's text and end tag (`tail`)
+* `wf-names`, `wf-printed` (`appendedOk`)  every appended element is well-formed as printed: its name is `rect`, `circle`
+  or `text`, its attribute names are XML names and pairwise distinct, and the printed text is
+  `<name a1="v1" … />` or `<name a1="v1" …>content</name>` where every `vi` is an XML `AttValue` body and `content`
+  XML `CharData`/references: no raw `<`, no raw `&` (only the five predefined entities and character references
+  to XML `Char`s), no raw `"` inside a value, only valid UTF-8 encodings of XML `Char`s, no `]]>` in content
 * the appended elements are, in component order and for the **visible** components only (no map, or non-zero map
   entry), one group per component — nothing for masked components, nothing else at all (`extra-nodes`,
   `missing-main`):
   * `main`   first element of the group: carries `id="HWc<id>"`; a `rect` with `x = X − W/2`, `y = Y − H/2`
              (Go integer division), `width = W`, `height = H` when the resolved type has `H > 0`, otherwise a `circle`
-             with `cx = X`, `cy = Y`, `r = W/2`
+             with `cx = X`, `cy = Y`, `r = W/2`; it carries `transform="rotate(<r> X Y)"` exactly when the resolved
+             rotation is not zero (`<r>` = the supplied `%03f` text of the rotation), no `transform` otherwise
   * `group`  then, in order: one `rect`/`circle` per sub element of kind `r`/`c` at the component's position plus
-             offset; the label lines (when labels are shown or the type's render hints contain `txt`): one `text`
-             per line of the label split at `|` — two lines when the second is non-empty, else one; optional
-             type / display-size texts (development switches); the id text (when ids are shown or the render hints
-             contain `hwcid`) whose content is the decimal id.  None of these carries an `id` attribute, so the main
-             shape is the only element identified as the component.
+             offset, with the same `transform` rule and with `rx` / `ry` / `style` exactly when the sub element's
+             Rx / Ry / Style is non-zero / non-empty; the label lines (when labels are shown or the type's render
+             hints contain `txt`): one `text` per line of the label split at `|` — two lines when the second is
+             non-empty, else one; optional type / display-size texts (development switches); the id text (when ids
+             are shown or the render hints contain `hwcid`) whose content is the decimal id.  None of these carries
+             an `id` attribute, so the main shape is the only element identified as the component.
 -/
 namespace RawPanelVerif.Spec.Svg
 open RawPanelVerif.Topo
@@ -62,9 +76,20 @@ def visible (mask : Option (List (Nat × Nat))) (c : HWc) : Bool :=
     | some e => e.2 != 0
     | none => false
 
+/-- the `transform` a shape of component `c` must carry: `rotate(<r> X Y)` iff the resolved rotation is not zero -/
+def wantTransform (fmt : Str → Str) (c : HWc) (td : TypeDef) : Option Str :=
+  if rotIsZero td.rotate then none
+  else some (bytes "rotate(" ++ fmt td.rotate ++ bytes " " ++ dec c.x ++ bytes " " ++ dec c.y ++ bytes ")")
+
+/-- an optional integer attribute: present exactly when the value is not zero -/
+def wantInt (v : Int) : Option Str := if v = 0 then none else some (dec v)
+
+/-- an optional string attribute: present exactly when the value is not empty -/
+def wantStr (v : Str) : Option Str := if v = [] then none else some v
+
 /-- the main shape of a component -/
-def mainOk (c : HWc) (td : TypeDef) (n : SvgNode) : Bool :=
-  attr n "id" == some (bytes "HWc" ++ dec c.id) &&
+def mainOk (fmt : Str → Str) (c : HWc) (td : TypeDef) (n : SvgNode) : Bool :=
+  attr n "id" == some (bytes "HWc" ++ dec c.id) && attr n "transform" == wantTransform fmt c td &&
   (if td.h > 0 then
     n.name == bytes "rect" && attr n "x" == some (dec (c.x - td.w.tdiv 2)) && attr n "y" == some (dec (c.y - td.h.tdiv 2)) &&
     attr n "width" == some (dec td.w) && attr n "height" == some (dec td.h)
@@ -91,42 +116,198 @@ def slots (o : SvgOpts) (c : HWc) (td : TypeDef) : List Slot :=
   (if o.showDisplaySize && td.disp.isSome then [.devText] else []) ++
   (if o.showHWCID || hasHint td.render "hwcid" then [.idText] else [])
 
-def slotOk (c : HWc) : Slot → SvgNode → Bool
+/-- rotation and the optional `rx`/`ry`/`style` of a sub-shape -/
+def subExtraOk (fmt : Str → Str) (c : HWc) (td : TypeDef) (s : SubEl) (n : SvgNode) : Bool :=
+  attr n "transform" == wantTransform fmt c td && attr n "rx" == wantInt s.rx && attr n "ry" == wantInt s.ry &&
+  attr n "style" == wantStr s.style
+
+def slotOk (fmt : Str → Str) (c : HWc) (td : TypeDef) : Slot → SvgNode → Bool
   | .subRect s, n =>
     n.name == bytes "rect" && attr n "id" == none && attr n "x" == some (dec (c.x + s.x)) && attr n "y" == some (dec (c.y + s.y)) &&
-    attr n "width" == some (dec s.w) && attr n "height" == some (dec s.h)
+    attr n "width" == some (dec s.w) && attr n "height" == some (dec s.h) && subExtraOk fmt c td s n
   | .subCircle s, n =>
     n.name == bytes "circle" && attr n "id" == none && attr n "cx" == some (dec (c.x + s.x)) && attr n "cy" == some (dec (c.y + s.y)) &&
-    attr n "r" == some (dec s.r)
+    attr n "r" == some (dec s.r) && subExtraOk fmt c td s n
   | .label txt, n => n.name == bytes "text" && attr n "id" == none && n.text == txt && attr n "x" == some (dec c.x)
   | .devText, n => n.name == bytes "text" && attr n "id" == none
   | .idText, n => n.name == bytes "text" && attr n "id" == none && n.text == dec c.id
 
-def allOk (c : HWc) : List Slot → List SvgNode → Bool
+def allOk (fmt : Str → Str) (c : HWc) (td : TypeDef) : List Slot → List SvgNode → Bool
   | [], [] => true
-  | s :: ss, n :: ns => slotOk c s n && allOk c ss ns
+  | s :: ss, n :: ns => slotOk fmt c td s n && allOk fmt c td ss ns
   | _, _ => false
 
-def checkGroups (o : SvgOpts) (t : Topology) : List HWc → List SvgNode → Option String
+def checkGroups (fmt : Str → Str) (o : SvgOpts) (t : Topology) : List HWc → List SvgNode → Option String
   | [], [] => none
   | [], _ :: _ => some "extra-nodes"
   | _ :: _, [] => some "missing-main"
   | c :: cs, m :: rest =>
     let td := Spec.Topo.resolved t c
-    if !mainOk c td m then some "main"
+    if !mainOk fmt c td m then some "main"
     else
       let sl := slots o c td
-      if !allOk c sl (rest.take sl.length) then some "group"
-      else checkGroups o t cs (rest.drop sl.length)
+      if !allOk fmt c td sl (rest.take sl.length) then some "group"
+      else checkGroups fmt o t cs (rest.drop sl.length)
 
-def checkSVG (o : SvgOpts) (t : Topology) (mask : Option (List (Nat × Nat))) (baseOk : Bool)
-    (out : Option (List SvgNode)) (kept wellformed : Bool) : Option String :=
+/-! ## well-formedness of the appended elements as printed -/
+
+/-- XML `Char` -/
+def isChar (n : Nat) : Bool :=
+  n = 9 || n = 10 || n = 13 || (0x20 ≤ n && n ≤ 0xD7FF) || (0xE000 ≤ n && n ≤ 0xFFFD) || (0x10000 ≤ n && n ≤ 0x10FFFF)
+
+def isDigit (c : UInt8) : Bool := 48 ≤ c.toNat && c.toNat ≤ 57
+def isHexDigit (c : UInt8) : Bool :=
+  isDigit c || (65 ≤ c.toNat && c.toNat ≤ 70) || (97 ≤ c.toNat && c.toNat ≤ 102)
+def hexVal (c : UInt8) : Nat := if isDigit c then c.toNat - 48 else if c.toNat ≤ 70 then c.toNat - 55 else c.toNat - 87
+
+/-- the body of a reference (between `&` and `;`): one of the five predefined entities, or `#ddd` / `#xhhh` naming a `Char` -/
+def refOk (acc : Str) : Bool :=
+  [bytes "amp", bytes "lt", bytes "gt", bytes "quot", bytes "apos"].contains acc ||
+  (match acc with
+   | 35 :: 120 :: h => !h.isEmpty && h.all isHexDigit && isChar (h.foldl (fun v c => v * 16 + hexVal c) 0)
+   | 35 :: d => !d.isEmpty && d.all isDigit && isChar (d.foldl (fun v c => v * 10 + (c.toNat - 48)) 0)
+   | _ => false)
+
+/-- states of the recogniser for attribute-value bodies / element content without child elements -/
+inductive CS where
+  | start                          -- between characters
+  | ref (acc : Str)                -- after `&`, the reference body read so far
+  | u (more : Nat) (lo hi : Nat)   -- inside a UTF-8 encoding: next byte in [lo, hi], then `more` continuation bytes
+  | ef                             -- after 0xEF (U+F000…U+FFFF: U+FFFE and U+FFFF are not `Char`s)
+  | efbf                           -- after 0xEF 0xBF
+deriving Repr, DecidableEq
+
+/-- one byte.  `none` = not well-formed: a raw `<`, a control character, a malformed reference, an invalid UTF-8
+encoding or one of a non-`Char` (surrogates, U+FFFE, U+FFFF, > U+10FFFF, overlong forms) -/
+def cstep : CS → UInt8 → Option CS
+  | .start, c =>
+    let n := c.toNat
+    if n = 60 then none
+    else if n = 38 then some (.ref [])
+    else if n < 0x80 then (if isChar n then some .start else none)
+    else if n < 0xC2 then none
+    else if n < 0xE0 then some (.u 0 0x80 0xBF)
+    else if n = 0xE0 then some (.u 1 0xA0 0xBF)
+    else if n = 0xED then some (.u 1 0x80 0x9F)
+    else if n = 0xEF then some .ef
+    else if n < 0xF0 then some (.u 1 0x80 0xBF)
+    else if n = 0xF0 then some (.u 2 0x90 0xBF)
+    else if n < 0xF4 then some (.u 2 0x80 0xBF)
+    else if n = 0xF4 then some (.u 2 0x80 0x8F)
+    else none
+  | .ref acc, c => if c.toNat = 59 then (if refOk acc then some .start else none) else some (.ref (acc ++ [c]))
+  | .u more lo hi, c =>
+    if lo ≤ c.toNat ∧ c.toNat ≤ hi then (match more with | 0 => some .start | m + 1 => some (.u m 0x80 0xBF)) else none
+  | .ef, c => if c.toNat = 0xBF then some .efbf else if 0x80 ≤ c.toNat ∧ c.toNat ≤ 0xBE then some (.u 0 0x80 0xBF) else none
+  | .efbf, c => if 0x80 ≤ c.toNat ∧ c.toNat ≤ 0xBD then some .start else none
+
+/-- read a body up to the delimiter `stop` (`"` for attribute values, `<` for content): the body and what follows the
+delimiter; `none` when the body is not well-formed or the delimiter is missing -/
+def scanTo (stop : Nat) : CS → Str → Option (Str × Str)
+  | _, [] => none
+  | st, c :: r =>
+    if st = .start ∧ c.toNat = stop then some ([], r)
+    else match cstep st c with
+      | none => none
+      | some st' => (scanTo stop st' r).map (fun p => (c :: p.1, p.2))
+
+/-- `pre` is a prefix: the rest -/
+def eat : Str → Str → Option Str
+  | [], s => some s
+  | _ :: _, [] => none
+  | a :: p, c :: s => if a = c then eat p s else none
+
+/-- no `]]>` -/
+def noCDEnd : Str → Bool
+  | [] => true
+  | c :: r => !(c == 93 && r.take 2 == [93, 62]) && noCDEnd r
+
+/-- ` k="body"` for each expected attribute name in order: what follows -/
+def eatAttrs : List Str → Str → Option Str
+  | [], s => some s
+  | k :: ks, s =>
+    match eat ([32] ++ k ++ [61, 34]) s with
+    | none => none
+    | some s1 =>
+      match scanTo 34 .start s1 with
+      | none => none
+      | some p => eatAttrs ks p.2
+
+/-- the text printed for element `n` is `<name a1="…" … />` (no content) or `<name a1="…" …>content</name>` -/
+def printedOk (n : SvgNode) (p : Str) : Bool :=
+  match eat ([60] ++ n.name) p with
+  | none => false
+  | some s0 =>
+    match eatAttrs (n.attrs.map (·.1)) s0 with
+    | none => false
+    | some rest =>
+      if n.text = [] then rest == [32, 47, 62]
+      else
+        match eat [62] rest with
+        | none => false
+        | some s1 =>
+          match scanTo 60 .start s1 with
+          | none => false
+          | some (body, rest2) => noCDEnd body && rest2 == [47] ++ n.name ++ [62]
+
+/-- an XML `Name` (ASCII part of the production) -/
+def isXmlName (s : Str) : Bool :=
+  match s with
+  | [] => false
+  | c :: r =>
+    let start (c : UInt8) : Bool := (65 ≤ c.toNat && c.toNat ≤ 90) || (97 ≤ c.toNat && c.toNat ≤ 122) || c.toNat = 95 || c.toNat = 58
+    start c && r.all (fun c => start c || isDigit c || c.toNat = 45 || c.toNat = 46)
+
+def distinct : List Str → Bool
+  | [] => true
+  | a :: r => !r.contains a && distinct r
+
+/-- the element's name is one of the three shapes; its attribute names are names and pairwise distinct -/
+def shapeOk (n : SvgNode) : Bool :=
+  [bytes "rect", bytes "circle", bytes "text"].contains n.name &&
+  (n.attrs.map (·.1)).all isXmlName && distinct (n.attrs.map (·.1))
+
+/-- well-formedness of one appended element (the node and the text printed for it) -/
+def appendedOk (np : SvgNode × Str) : Option String :=
+  if !shapeOk np.1 then some "wf-names" else if !printedOk np.1 np.2 then some "wf-printed" else none
+
+def firstErr : List (SvgNode × Str) → Option String
+  | [] => none
+  | np :: r => match appendedOk np with | some e => some e | none => firstErr r
+
+/-- the part of the property about what is **added**: every appended element well-formed as printed, and the appended
+elements are exactly the groups of the visible components -/
+def checkAppended (fmt : Str → Str) (o : SvgOpts) (t : Topology) (mask : Option (List (Nat × Nat)))
+    (nodes : List (SvgNode × Str)) : Option String :=
+  match firstErr nodes with
+  | some e => some e
+  | none => checkGroups fmt o t (t.hwc.filter (visible mask)) (nodes.map (·.1))
+
+/-- a valid base: `encoding/xml` tokenizes it to the end without error and it contains a start element (`S`) -/
+def baseOk (kinds : Str) (endOk : Bool) : Bool := endOk && kinds.contains 83
+
+/-- what the harness observes on the implementation's document (the base document is a parameter of the model) -/
+structure Observed where
+  kept : Bool        -- root attributes and the base's own children unchanged in the result tree
+  kept2 : Bool       -- the base's `encoding/xml` token stream is, in order, contained in that of the printed documents
+  wellformed : Bool  -- the printed documents re-parse (one root, matching tags, no duplicate attribute names)
+  tail : Bool        -- the printed documents end with the printed appended elements, the root's text and end tag
+deriving Repr, DecidableEq
+
+def observedOk (ob : Observed) : Option String :=
+  if !(ob.kept && ob.kept2) then some "base-content"
+  else if !ob.wellformed then some "wellformed"
+  else if !ob.tail then some "printed-tail"
+  else none
+
+def checkSVG (fmt : Str → Str) (o : SvgOpts) (t : Topology) (mask : Option (List (Nat × Nat))) (kinds : Str) (endOk : Bool)
+    (out : Option (List (SvgNode × Str))) (ob : Observed) : Option String :=
   match out with
-  | none => if baseOk then some "nil-for-valid-base" else none
+  | none => if baseOk kinds endOk then some "nil-for-valid-base" else none
   | some nodes =>
-    if !baseOk then some "bad-base-not-empty"
-    else if !kept then some "base-content"
-    else if !wellformed then some "wellformed"
-    else checkGroups o t (t.hwc.filter (visible mask)) nodes
+    if !baseOk kinds endOk then some "bad-base-not-empty"
+    else match observedOk ob with
+      | some e => some e
+      | none => checkAppended fmt o t mask nodes
 
 end RawPanelVerif.Spec.Svg
